@@ -226,11 +226,14 @@ struct Agg {
     tokens_seen: u64,
     /// first pair of different runs that share a token
     token_clash: Option<(u64, u64)>,
+    /// environment variables the code under test asked for
+    env_reads: BTreeSet<String>,
 }
 
 impl Agg {
     fn absorb(&mut self, idx: u64, r: RunReport) {
         self.runs += 1;
+        self.env_reads.extend(r.env_reads.iter().cloned());
         for c in r.tokens.as_bytes().chunks(32) {
             if let Some(v) = std::str::from_utf8(c).ok().and_then(|h| u128::from_str_radix(h, 16).ok()) {
                 self.tokens_seen += 1;
@@ -322,7 +325,12 @@ struct Pool {
 }
 
 /// Run `n` generated scenarios on `workers` processes.
+/// Environment leg: the variable (name, value) every scenario of the batches started now carries
+/// (worker processes apply it before they execute the scenario).
+static BATCH_ENV: Mutex<Option<(String, String)>> = Mutex::new(None);
+
 fn run_batch(check: &str, tier: &str, base: u64, first: u64, n: u64, workers: usize, wall_cap: Duration) -> Pool {
+    let batch_env: Option<(String, String)> = BATCH_ENV.lock().unwrap_or_else(|e| e.into_inner()).clone();
     let next = Arc::new(AtomicU64::new(first));
     let end = first + n;
     let stop = Arc::new(AtomicBool::new(false));
@@ -340,6 +348,7 @@ fn run_batch(check: &str, tier: &str, base: u64, first: u64, n: u64, workers: us
         let busy = busy.clone();
         let check = check.to_string();
         let tier = tier.to_string();
+        let batch_env = batch_env.clone();
         handles.push(std::thread::spawn(move || {
             let mut w: Option<Worker> = None;
             let mut hist: Vec<u64> = Vec::new();
@@ -364,7 +373,10 @@ fn run_batch(check: &str, tier: &str, base: u64, first: u64, n: u64, workers: us
                 let wk = w.as_mut().unwrap();
                 busy.lock().unwrap()[wi] = Some((wk.pid(), Instant::now()));
                 let seed = run_seed(base, &check, idx);
-                let r = wk.request(&json!({"cmd": "gen", "check": check, "seed": seed, "tier": tier}));
+                let r = match &batch_env {
+                    Some((k, v)) => wk.request(&json!({"cmd": "gen", "check": check, "seed": seed, "tier": tier, "env": {k.as_str(): v}})),
+                    None => wk.request(&json!({"cmd": "gen", "check": check, "seed": seed, "tier": tier})),
+                };
                 busy.lock().unwrap()[wi] = None;
                 let dead = !matches!(r, Reply::Report(_));
                 let prior = match &r {
@@ -784,6 +796,35 @@ pub fn check_main(args: &[String]) -> i32 {
         }
     }
     agg.violations.extend(crash_violations);
+    // environment leg: the code under test consults the process environment — run small batches
+    // in fresh worker processes that have those variables set to values an operator might use
+    let mut env_leg = json!(null);
+    if !agg.env_reads.is_empty() {
+        let names: Vec<String> = agg.env_reads.iter().take(3).cloned().collect();
+        println!("NOTE the code under test reads environment variables {:?}: running the environment leg (each variable set to 0, 1, 8, -1, 2592000, the empty string, true)", names);
+        let n_small = runs.min(if tier == "thorough" { 400 } else { 120 });
+        let mut batches = 0u64;
+        let mut env_runs = 0u64;
+        for name in &names {
+            for value in ["0", "1", "8", "-1", "2592000", "", "true"] {
+                *BATCH_ENV.lock().unwrap_or_else(|e| e.into_inner()) = Some((name.clone(), value.to_string()));
+                let p = run_batch(&check, tier, base ^ crate::rng::hash_str(&format!("{}={}", name, value)), 0, n_small, workers, wall_cap);
+                *BATCH_ENV.lock().unwrap_or_else(|e| e.into_inner()) = None;
+                batches += 1;
+                env_runs += p.agg.runs;
+                for (idx, v) in p.agg.violations {
+                    // run indices of the environment batches are their own: mark them
+                    agg.violations.push((1_000_000_000 + idx, v));
+                }
+                for (k, c) in p.agg.counters {
+                    if k.starts_with("oracle.") {
+                        *agg.counters.entry(k).or_insert(0) += c;
+                    }
+                }
+            }
+        }
+        env_leg = json!({"variables_read_by_the_code_under_test": names, "values_tried": ["0", "1", "8", "-1", "2592000", "", "true"], "batches": batches, "runs": env_runs});
+    }
     // campaign-level oracle: no salt and no decoy digest of one run occurs in another run
     if let Some((a, b)) = agg.token_clash {
         let tier_e = profiles::tier_from(tier);
@@ -927,6 +968,7 @@ pub fn check_main(args: &[String]) -> i32 {
             "determinism_sample": {"runs_reexecuted_in_other_processes": det.agg.loghashes.len(), "event_log_hash_mismatches": det_mismatch.len(), "cross_world_state_in_code_under_test": cross_world_state},
             "worker_crashes_or_hangs": agg.crashes.len(),
             "values_compared_for_uniqueness_across_runs": agg.tokens_seen,
+            "environment_leg": env_leg,
             "known_findings_hit": known_hits.keys().collect::<Vec<_>>(),
             "seam_level_preemption": std::env::var("SDSIM_NO_SEAM_PREEMPT").is_err(),
             "violation_signatures_seen": by_sig.iter().map(|(k, v)| json!({"signature": k, "runs": v.2})).collect::<Vec<_>>(),
